@@ -183,7 +183,9 @@ func genScenario() *netctl.Scenario {
 						ctx, cancel := context.WithTimeout(context.Background(), 200*time.Second)
 						err := st.cl.Flush(ctx)
 						cancel()
-						if err != nil && !st.closed {
+						// while the partition is leaderless a record with an unanswered
+						// attempt can neither be sent nor failed: Flush legitimately waits
+						if err != nil && !st.closed && !(st.outage && !outageOver.Load()) {
 							x.Violate("flush-error", "Flush returned %v", err)
 						}
 					case 'A':
@@ -191,7 +193,7 @@ func genScenario() *netctl.Scenario {
 						ctx, cancel := context.WithTimeout(context.Background(), 200*time.Second)
 						err := st.cl.AbortBufferedRecords(ctx)
 						cancel()
-						if err != nil && !st.closed {
+						if err != nil && !st.closed && !(st.outage && !outageOver.Load()) {
 							x.Violate("abort-error", "AbortBufferedRecords returned %v", err)
 						}
 					case 'P':
